@@ -95,6 +95,7 @@ pub open spec fn shows_the_computed_stats(res: Result<BigWigAverageOverBedEntry,
 }
 // multi-threaded copy: `let entry = match stats_for_bed_item(chrom, entry, inbigwig) { ARMS };` of process_chunk
 //@extract fn bigtools/src/utils/cli/bigwigaverageoverbed.rs process_chunk
+//@rule R16
 //@presub /\A.*?\n([ \t]*)let entry = match stats_for_bed_item\([^)]*\) \{(.*?)\n\1\};\n.*\Z/ => fn entry_mt(res: Result<BigWigAverageOverBedEntry, BBIReadError>, size: u32) -> Result<BigWigAverageOverBedEntry, AnyErr> {\n    let entry = match res {\2\n    };\n    Ok(entry)\n} min=1 count=1
 //@sub /\be\.into\(\)/ => any_err(e) min=0
 //@ret r
@@ -107,6 +108,7 @@ pub open spec fn shows_the_computed_stats(res: Result<BigWigAverageOverBedEntry,
 //@end
 // single-threaded copy: the LAST such statement of `bigwigaverageoverbed`
 //@extract fn bigtools/src/utils/cli/bigwigaverageoverbed.rs bigwigaverageoverbed
+//@rule R16
 //@presub /\A.*\n([ \t]*)let entry = match stats_for_bed_item\([^)]*\) \{(.*?)\n\1\};\n.*\Z/ => fn entry_st(res: Result<BigWigAverageOverBedEntry, BBIReadError>, size: u32) -> Result<BigWigAverageOverBedEntry, AnyErr> {\n    let entry = match res {\2\n    };\n    Ok(entry)\n} min=1 count=1
 //@sub /\be\.into\(\)/ => any_err(e) min=0
 //@ret r
@@ -120,6 +122,7 @@ pub open spec fn shows_the_computed_stats(res: Result<BigWigAverageOverBedEntry,
 
 // ---- multi-threaded path: the FIRST `let stats = match add_min_max {..};` of `process_chunk` ----
 //@extract fn bigtools/src/utils/cli/bigwigaverageoverbed.rs process_chunk
+//@rule R16
 //@presub /\A.*?let stats = match add_min_max \{(.*?)\n[ \t]*\};\n.*\Z/ => fn stats_row_mt(entry: &BigWigAverageOverBedEntry, add_min_max: bool) -> Row {\n    let stats = match add_min_max {\1\n    };\n    stats\n} min=1 count=1
 //@ret r
 //@sig
@@ -131,6 +134,7 @@ pub open spec fn shows_the_computed_stats(res: Result<BigWigAverageOverBedEntry,
 //@end
 // ---- multi-threaded path: everything between that statement and the end of the loop body (`} Ok(tmp) }`) ----
 //@extract fn bigtools/src/utils/cli/bigwigaverageoverbed.rs process_chunk
+//@rule R16
 //@presub /\A.*?let stats = match add_min_max \{.*?\n[ \t]*\};\n(.*?)\n[ \t]*\}\s*Ok\(tmp\)\s*\}\s*\Z/ => fn emit_row_mt(name: NameText, stats: Row, tmp0: Out) -> Result<Out, IoErr> {\n    let mut tmp = tmp0;\n\1\n    ;\n    Ok(tmp)\n} min=1 count=1
 //@ret r
 //@sig
@@ -141,6 +145,7 @@ pub open spec fn shows_the_computed_stats(res: Result<BigWigAverageOverBedEntry,
 
 // ---- single-threaded path: the LAST `let stats = match add_min_max {..};` of `bigwigaverageoverbed` ----
 //@extract fn bigtools/src/utils/cli/bigwigaverageoverbed.rs bigwigaverageoverbed
+//@rule R16
 //@presub /\A.*let stats = match add_min_max \{(.*?)\n[ \t]*\};\n.*\Z/ => fn stats_row_st(entry: &BigWigAverageOverBedEntry, add_min_max: bool) -> Row {\n    let stats = match add_min_max {\1\n    };\n    stats\n} min=1 count=1
 //@ret r
 //@sig
@@ -152,6 +157,7 @@ pub open spec fn shows_the_computed_stats(res: Result<BigWigAverageOverBedEntry,
 //@end
 // ---- single-threaded path: everything between that statement and the end of the loop body (`} } Ok(()) }`) ----
 //@extract fn bigtools/src/utils/cli/bigwigaverageoverbed.rs bigwigaverageoverbed
+//@rule R16
 //@presub /\A.*let stats = match add_min_max \{.*?\n[ \t]*\};\n(.*?)\n[ \t]*\}\s*\}\s*Ok\(\(\)\)\s*\}\s*\Z/ => fn emit_row_st(name: NameText, stats: Row, bedoutwriter0: Out) -> Result<Out, IoErr> {\n    let mut bedoutwriter = bedoutwriter0;\n\1\n    ;\n    Ok(bedoutwriter)\n} min=1 count=1
 //@ret r
 //@sig
